@@ -54,6 +54,9 @@ var c13Queries = []string{
 	"SELECT a FROM t WHERE a IN (SELECT p FROM items)",
 	"SELECT a, (SELECT p FROM items) AS s FROM t WHERE a > ?",
 	"SELECT COUNT(*) AS n FROM t WHERE a > ?",
+	"SELECT a, ASYNC.vid(a) AS v FROM t WHERE a > ?",
+	"SELECT a, SPINASYNC.vid(a) FROM t WHERE a > ?",
+	"SELECT * FROM t x PARALLEL JOIN t y ON x.a <= y.a WHERE x.a > ?",
 }
 
 // H_C13_queries: two queries run concurrently on separate documents and on
@@ -62,6 +65,12 @@ func H_C13_queries() {
 	shared := verif.Choose("shared", 2)
 	q1 := verif.Choose("q1", len(c13Queries))
 	q2 := verif.Choose("q2", len(c13Queries))
+	// the two threads are symmetric: unordered pairs; the queries with their
+	// own goroutines are paired with the plain filter and with themselves
+	if q2 > q1 || (q1 >= 4 && q2 != 0 && q2 != q1) {
+		verif.Assume(false)
+	}
+	RegisterFunction("vid", idFunc)
 	verif.Opt("schedules", 1)
 	verif.Opt("race", 1)
 	verif.Opt("preempt", 1+verif.Tier())
